@@ -52,7 +52,7 @@ def _m(text, ref):
 
 PROPS["C20"] = {"level": "exploration",
     "assumptions": ["RegularGrid is inspected through its exported fields and methods plus an overlay accessor for the private vector coordinates", "tolerances: cell overlap and bounds 1e-3 m; primitives: sum of absolute terms * 2^-20; decisions asserted only away from the decision boundary", "quads are horizontal ground planes (extents y = 0) with positive extents, coordinates bounded by 64 m"],
-    "parts": [H("TestC20Grid", "grid", 1200, 60000, qs=2, ts=16, rapid=True), H("TestC20Primitives", "prim", 30000, 1000000, qs=1, ts=16), H("TestC20Shared", "shared", 1500, 20000, qs=1, ts=16)]}
+    "parts": [H("TestC20Grid", "grid", 1200, 60000, qs=2, ts=16, rapid=True, hang_is_violation=True), H("TestC20Primitives", "prim", 30000, 1000000, qs=1, ts=16), H("TestC20Shared", "shared", 1500, 20000, qs=1, ts=16, hang_is_violation=True)]}
 
 PROPS["C19"] = {"level": "fault_enumeration",
     "assumptions": MODEL_ASSUME + ["part verify: independent math/big secp256k1 recoverability reference and x/crypto Keccak-256", "part forward: real ReceiptHandler loop and real net/http client against an in-process HTTP server over loopback TCP in real time; waiting is bounded, an exhausted wait is inconclusive, never a violation"],
